@@ -424,3 +424,7 @@ def run(ctx):
     # a module whose build id cannot be read is dropped from the list: the scan over PT_NOTE segments must not give up early
     from rules import c14
     c14.rule_scan_all_notes(ctx, R="C08/scan-all-notes")
+    # "caller-supplied mappings are listed verbatim": the list reaches the writer as the caller gave it
+    from rules import c19
+    n = c19.rule_setters_verbatim(ctx, R="C08/user-list-verbatim", only=("user_mapping_list",))
+    ctx.floor("C08/user-list-verbatim", "set_user_mapping_list", n, 1)
